@@ -179,22 +179,21 @@ def evaluate_case(case):
             rec["skipped"] += 1
             continue
         try:
-            b = oracle.shown(res_text + "\n" + inst) if use_shown else oracle.solve_text(res_text + "\n" + inst, project)
-        except oracle.Skip as e:
-            # the result grounds with 'operation undefined' where the source did not, or blows up: a difference
-            if str(e) == "undefined":
-                rec.update(status="mismatch", instance=inst, why="result reports 'operation undefined'/'tuple ignored', source does not")
-                return rec
+            # warnings of the result alone are not a difference: its answer sets are compared all the same
+            b = oracle.shown(res_text + "\n" + inst, allow_undefined=True) if use_shown else \
+                oracle.solve_text(res_text + "\n" + inst, project, allow_undefined=True)
+        except oracle.Skip:
             rec["skipped"] += 1
             continue
         except oracle.Broken as e:
             rec.update(status="broken-result", instance=inst, why=str(e)[:300])
             return rec
         rec["compared"] += 1
+        res_undefined = oracle.LAST["undefined"]
         one2one = rel in ("voc", "all") and case.get("one_to_one", True)
         if a != b:
             rec.update(status="mismatch", instance=inst, source_models=oracle.describe(a - b), result_models=oracle.describe(b - a),
-                       why="projected answer sets / costs differ")
+                       why="projected answer sets / costs differ", result_undefined=res_undefined)
             return rec
         if one2one:
             try:
